@@ -11,3 +11,4 @@ func StepBudget() int64           { return 0 }
 func SetStepBudget(n int64)       {}
 func SetExtraHook(f func(string)) {}
 func DisableStepBudget()          {}
+func SetHookEnabled(on bool)      {}
